@@ -33,6 +33,9 @@ def used_columns(spec):
 
 def gen_params(rng, tier):
     spec = gen.gen_spec(rng, rng.randint(1, 4), kinds=SINGLE_KINDS)
+    for node in gen.walk(spec):
+        if "q" in node and rng.random() < 0.3:
+            node["q"] = [node["q"][0], node["q"][1], "cached"]   # a memoised quantity
     cols = used_columns(spec) or [0]
     stream = []
     crit = gen.critical_values(spec)
@@ -41,29 +44,45 @@ def gen_params(rng, tier):
         w = gen.gen_weight(rng, 0.1)
         if rng.random() < 0.35:
             d[rng.choice(cols)] = RAISES if rng.random() < 0.5 else WRONG
+            stream.append([d, w])
+            if rng.random() < 0.3:
+                stream.append([list(d), w])   # the same failing record again (a memoised quantity must fail again)
+            continue
         stream.append([d, w])
-    return {"spec": spec, "stream": stream}
+    # the tree may be the result of an earlier operation on a freshly built one (still empty)
+    return {"spec": spec, "stream": stream, "pre": rng.choice(["none", "none", "copy", "addzero", "mul1", "pickle", "zero"])}
 
 
 def build(p):
     stream = [(r[0], r[1]) for r in p["stream"]]
-    ops = [("new", "a", p["spec"]), ("mcheck", ["singlepath", "a"], True), ("mcheck", ["good", "a"], True)]
+    pre = p.get("pre", "none")
+    if pre == "none":
+        ops = [("new", "a", p["spec"])]
+    else:
+        ops = [("new", "a0", p["spec"])]
+        ops += {"copy": [("copy", "a", "a0")],
+                "addzero": [("zero", "z0", "a0"), ("add", "a", "a0", "z0")],
+                "mul1": [("mul", "a", "a0", 1.0)],
+                "pickle": [("pickle", "a", "a0")],
+                "zero": [("zero", "a", "a0")]}[pre]
+    ops += [("mcheck", ["singlepath", "a"], True), ("mcheck", ["good", "a"], True)]
+    first = len(ops)
     expect = []
     for d, w in stream:
         ops.append(("snap", "pre", "a"))
         ops.append(("fill", "a", d, w))
         ops.append(("checksnap_if_raised", "pre", "a", "a raising fill left a trace"))
-    expect.append(("pycheck", "c12_survivors", "a"))
+    expect.append(("pycheck", "c12_survivors", "a", first))
     return {"ops": ops, "expect": expect}
 
 
 @common.pycheck("c12_survivors")
-def _survivors(py, replies, h):
+def _survivors(py, replies, h, first=3):
     p = py.case_params
     stream = [(r[0], r[1]) for r in p["stream"]]
     fills = [r for r in replies if isinstance(r, str) and (r == "ok" or r.startswith("raise")) ]
     # replies of the fill ops, in order (snap/check ops reply "ok" too: take every third starting at index 2)
-    outcome = [replies[3 + 3 * i + 1] for i in range(len(stream))]
+    outcome = [replies[first + 3 * i + 1] for i in range(len(stream))]
     surv = [dw for dw, o in zip(stream, outcome) if o == "ok"]
     want = execs.canon_doc(refeval.reference_doc(p["spec"], surv))
     d = execs.diff_doc(py.state(h), want)
